@@ -12,6 +12,9 @@ for d in /verif/seeded/$prop/*/; do
   if python3 -c "import json,sys; sys.exit(0 if json.load(open('$d/meta.json')).get('detected_by','').startswith('MISSED') else 1)"; then
     echo "SEED $prop/$k: recorded as MISSED (not decided by any rule; see meta.json)"; missed=$((missed+1)); continue
   fi
+  if python3 -c "import json,sys; sys.exit(0 if json.load(open('$d/meta.json')).get('detected_by','').startswith('NEUTRALISED') else 1)"; then
+    echo "SEED $prop/$k: recorded as NEUTRALISED (a later repair of /repo removed the circumstance it needs; see meta.json)"; continue
+  fi
   /verif/selftest/scratch.sh >/dev/null
   ( cd "$S/repo" && patch -p1 -s < "$d/patch.diff" ) || { echo "SEED $prop/$k: patch does not apply to the current tree"; fail=$((fail+1)); continue; }
   out=$(mktemp -d /var/tmp/verif-out.XXXXXX)
